@@ -29,12 +29,31 @@ use elliptic_curve::{group::Curve, hash2curve::ExpandMsg};
 use serde::{Deserialize, Serialize};
 
 #[derive(Clone, PartialEq, Eq, Debug, Serialize, Deserialize)]
+#[serde(try_from = "BBSplusSignatureUnchecked")]
 /// A BBS+ signature consisting of a group element `A` and a scalar `e`.
 pub struct BBSplusSignature {
     /// Group element `A` in the BBS+ signature.
     pub A: G1Projective,
     /// Scalar `e` in the BBS+ signature.
     pub e: Scalar,
+}
+
+#[derive(Deserialize)]
+struct BBSplusSignatureUnchecked {
+    A: G1Projective,
+    e: Scalar,
+}
+
+impl TryFrom<BBSplusSignatureUnchecked> for BBSplusSignature {
+    type Error = Error;
+
+    /// Same validity rules as [`BBSplusSignature::from_bytes`]
+    fn try_from(value: BBSplusSignatureUnchecked) -> Result<Self, Self::Error> {
+        if bool::from(value.A.is_identity()) || value.e == Scalar::ZERO {
+            return Err(Error::InvalidSignature);
+        }
+        Ok(Self { A: value.A, e: value.e })
+    }
 }
 
 impl BBSplusSignature {
